@@ -56,6 +56,8 @@ psf_get_chunk_iterator (SF_PRIVATE * psf, const char * marker_str)
 			return NULL ;
 		} ;
 
+	/* The iterator is shared by all searches on this handle : forget the previous one. */
+	memset (psf->iterator, 0, sizeof (*psf->iterator)) ;
 	psf->iterator->sndfile = (SNDFILE *) psf ;
 
 	if (marker_str)
